@@ -28,13 +28,20 @@ COLL = f("p/mbapp", "newCollector", "(*collector).addPart", "(*fragLayer).getCol
          "(*Swarm).handleMessage", "(*Swarm).handleMessage$1", "(*Swarm).handleTell")
 MB_SEND = f("p/mbapp", "(*Swarm).MTU", "(*Swarm).Tell", "(*Swarm).Ask", "(*Swarm).send", "extractErrorCode")
 
+CACHE = f("p/kademlia", "(Entry).IsExpired", "(*bucket).len", "(*bucket).get", "(*bucket).updateMinExpires", "(*bucket).put",
+          "(*bucket).delete", "(*bucket).expire", "(*bucket).evict", "(*bucket).update", "newBucket",
+          "(*Cache).bucketIndex", "(*Cache).Count", "(*Cache).IsFull", "(*Cache).Get", "(*Cache).Delete", "(*Cache).evict",
+          "(*Cache).Expire", "(*Cache).Update")
+
 PROPS = [
     dict(id="C01", functions=VEC + FRAG_WIRE + FRAG_AGG + FRAG_SEND + HDR + COLL + MB_SEND, assumptions=COMMON + BINARY),
     dict(id="C08", functions=MUX + FRAG_WIRE + FRAG_AGG + HDR + BITMAP + COLL, assumptions=COMMON + BINARY),
     dict(id="C09", functions=VEC + FRAG_SEND + f("s/fragswarm", "newMessage", "appendUvarint") + MB_SEND + HDR, assumptions=COMMON + BINARY),
     dict(id="C10", functions=FRAG_WIRE + FRAG_AGG + BITMAP + COLL, assumptions=COMMON + BINARY),
     dict(id="C15", functions=MUX, assumptions=COMMON + BINARY),
-    dict(id="C19", functions=KAD_LAWS, assumptions=COMMON),
+    dict(id="C18", functions=CACHE + KAD_LAWS, assumptions=COMMON + ["time.Time modelled as an integer instant (IsZero <=> 0, Before/After = </>)",
+         "map model: domain/value/cardinality arrays per map object; a non-empty map has a key; range over a map produces each present key at most once and all of them at exhaustion"]),
+    dict(id="C19", functions=KAD_LAWS + f("p/kademlia", "(*Cache).bucketIndex"), assumptions=COMMON),
 ]
 
 def main():
